@@ -2,6 +2,7 @@ package main
 
 import (
 	"fmt"
+	"os"
 	"runtime"
 )
 
@@ -56,11 +57,134 @@ func heapKeys(kt KeyType, seed uint64, n int) [][]byte {
 	return out
 }
 
+// crossKey builds a key of group g (the branch byte right under the root) and index j.
+func crossKey(kt KeyType, g, j int) []byte {
+	if kt.Kind == "alpha" {
+		return []byte{byte(g), 'k', byte(j >> 16), byte(j >> 8), byte(j), 'x'}
+	}
+	return u64bytes(uint64(g)<<56 | uint64(j)<<4 | 1)
+}
+
+// runHeapCross: tree A grows wide, shrinks (its nodes go back to the shared pool),
+// tree B then picks recycled nodes up while staying small; A is dropped. What B
+// keeps alive must be B's own content, not remnants of A.
+func (e *Exec) runHeapCross(s *Step) *Violation {
+	if len(e.trees) < 2 {
+		return nil
+	}
+	A, B := e.trees[0], e.trees[1]
+	for _, t := range []*treeState{A, B} {
+		if b := t.api.Buf(); b != nil {
+			b.noTrack = true
+		}
+	}
+	r := NewRNG(u64of(s.K))
+	groups := max(5, s.N)
+	S := int(s.V)
+	keep := 1 + r.Intn(3)        // groups that survive the shrink
+	bigLast := r.Chance(2, 3)    // the big subtree sits under the greatest branch byte
+	bKeys := pick(r, []int{5, 6, 9, 17, 20})
+	var v *Violation
+	msg := guard(func() {
+		base, _ := liveHeap()
+		id := uint64(1)
+		gbyte := func(g int) int { return 1 + g*(250/groups) }
+		big := groups - 1
+		if !bigLast {
+			big = r.Intn(groups)
+		}
+		for g := 0; g < groups; g++ {
+			n := 1 + r.Intn(2)
+			if g == big {
+				n = S
+			}
+			for j := 0; j < n; j++ {
+				A.api.Insert(crossKey(A.cfg.Key, gbyte(g), j), id)
+				id++
+			}
+		}
+		// shrink: delete whole groups, smallest first, never the big one
+		deleted := 0
+		for g := 0; g < groups && groups-deleted > keep; g++ {
+			if g == big {
+				continue
+			}
+			for j := 0; j < 2; j++ {
+				ok := A.api.Delete(crossKey(A.cfg.Key, gbyte(g), j))
+				if os.Getenv("VERIF_DEBUG") != "" && g < 2 {
+					fmt.Fprintf(os.Stderr, "del g=%d j=%d key=%x ok=%v size=%d\n", g, j, crossKey(A.cfg.Key, gbyte(g), j), ok, A.api.Size())
+				}
+			}
+			deleted++
+		}
+		// B grows just enough to pick the released nodes up — no collection in between
+		// (the pool hands nodes out in no simple order, so B acquires a few nodes
+		// of each class: groups of 5 keys become 16-slot nodes, groups of 17 keys
+		// 48-slot nodes; B stays at a couple of hundred keys)
+		bInserted := 0
+		bKey := func(g, x int) []byte {
+			if B.cfg.Key.Kind == "alpha" {
+				return []byte{byte(1 + g), byte(1 + x), 'b'}
+			}
+			return u64bytes(uint64(1+g)<<56 | uint64(1+x)<<48 | 7)
+		}
+		for g := 0; g < bKeys; g++ {
+			n := 5
+			if g%4 == 3 {
+				n = 17
+			}
+			for x := 0; x < n; x++ {
+				B.api.Insert(bKey(g, x), id)
+				id++
+				bInserted++
+			}
+		}
+		bSize := B.api.Size()
+		if os.Getenv("VERIF_DEBUG") != "" {
+			d := B.api.Dump()
+			stale := 0
+			for _, sl := range d.Slots {
+				if !sl.Live && sl.NonNil {
+					stale++
+				}
+			}
+			da := A.api.Dump()
+			fmt.Fprintf(os.Stderr, "B root class=%d len=%d stale=%d ; A root class=%d len=%d\n", d.Class, d.ChildrenLen, stale, da.Class, da.ChildrenLen)
+		}
+		// drop A for good
+		A.api, A.m = nil, nil
+		e.trees[0] = nil
+		after, _ := liveHeap()
+		e.st.Probes["heap_cross_runs"]++
+		if os.Getenv("VERIF_DEBUG") != "" {
+			fmt.Fprintf(os.Stderr, "hcross groups=%d S=%d keep=%d bigLast=%v bKeys=%d base=%d after=%d diff=%d\n", groups, S, keep, bigLast, bKeys, base, after, int64(after)-int64(base))
+		}
+		e.st.Mutations++
+		e.note(uint64(bSize))
+		e.trees[0] = A
+		if bSize != bInserted {
+			e.st.Upstream++
+			return
+		}
+		if after > base+heapDrainLimit+uint64(bInserted)*256 {
+			v = e.viol("heap", "C17-cross-tree", 0, "%s then %s: after a tree of %d keys in %d groups shrank and was dropped, a second tree holding %d keys keeps %d bytes more alive than before either existed (limit %d)", A.cfg.Key, B.cfg.Key, S, groups, bInserted, after-base, heapDrainLimit)
+		}
+	})
+	if msg != "" {
+		e.st.Upstream++
+		return nil
+	}
+	return v
+}
+
 func (e *Exec) runHeap() *Violation {
 	if len(e.tr.Steps) == 0 || len(e.trees) == 0 {
 		return nil
 	}
 	s := &e.tr.Steps[0]
+	if s.Op == "hcross" {
+		return e.runHeapCross(s)
+	}
 	ts := e.trees[0]
 	api := ts.api
 	if b := api.Buf(); b != nil {
@@ -140,7 +264,11 @@ func (e *Exec) runHeap() *Violation {
 		case "hquery":
 			for i := 0; i < N; i++ {
 				k := keys[r.Intn(S)]
-				switch i % 12 {
+				sel := i % 12
+				if s.Pad > 0 {
+					sel = []int{0, 3, 4, 5, 6, 7, 8, 9, 10}[(s.Pad-1)%9] // one kind of query only, unbroken
+				}
+				switch sel {
 				case 0, 1, 2:
 					api.Search(k)
 				case 3:
@@ -245,6 +373,23 @@ func (e *Exec) runHeap() *Violation {
 func genHeapTrace(seed uint64, run int, o genOpts) *Trace {
 	r := NewRNG(mix2(mix2(seed, hashStr("C17/"+o.domain)), uint64(run)))
 	tr := &Trace{Prop: "C17", Seed: seed, Run: run, Domain: o.domain, Mode: "heap"}
+	if run%6 == 5 {
+		// cross-tree retention through the shared node pool
+		mk := func() KeyType {
+			switch r.Intn(4) {
+			case 0:
+				return KeyType{Kind: "alpha", T: "string"}
+			case 1:
+				return KeyType{Kind: "alpha", T: "bytes"}
+			case 2:
+				return KeyType{Kind: "unsigned", T: "uint64"}
+			}
+			return KeyType{Kind: "signed", T: "int64"}
+		}
+		tr.Trees = []TreeCfg{{Key: mk(), Val: pick(r, []string{"big", "ptr", "str"})}, {Key: mk(), Val: pick(r, []string{"i64", "ptr"})}}
+		tr.Steps = []Step{{T: 0, Op: "hcross", N: pick(r, []int{5, 8, 16, 16, 17, 30, 48, 49, 80}), V: uint64(pick(r, []int{512, 4096, 4096, 20000})), K: u64bytes(r.U64())}}
+		return tr
+	}
 	classes := []string{"hquery", "hover", "hchurn", "hdrain"}
 	sizes := []int{1, 64, 4096}
 	kinds := allKinds
@@ -263,5 +408,8 @@ func genHeapTrace(seed uint64, run int, o genOpts) *Trace {
 		N = v
 	}
 	tr.Steps = []Step{{T: 0, Op: class, N: N, V: uint64(size), K: u64bytes(r.U64())}}
+	if class == "hquery" && r.Chance(2, 3) {
+		tr.Steps[0].Pad = r.Range(1, 9) // an unbroken run of one kind of query
+	}
 	return tr
 }
